@@ -106,3 +106,90 @@ def op_extrapolate(c):
         o['err2'] = ''
         o['replaced'] = []
     return o
+
+
+# ----------------------------------------------------------------------------- paths
+_PC = {}
+
+
+def _pathconf():
+    if not _PC:
+        conf = json.load(open(os.environ['SPIL_CONF_JSON']))
+        _PC['roots'] = {k: v['root'] for k, v in conf['paths'].items()}
+        _PC['lex'] = make_lexer(conf['pathseps'])
+        _PC['cfgs'] = conf['path_configs']
+        _PC['default'] = conf['default_path_config']
+    return _PC
+
+
+def _lexed(p, cfg):
+    pc = _pathconf()
+    return lexpath(p, pc['roots'][cfg], pc['lex']) if p is not None else []
+
+
+def _render_path(path, cfg):
+    pc = _pathconf()
+    other = [c for c in pc['cfgs'] if c != cfg]
+    segs = []
+    for i, seg in enumerate(path):
+        if seg == ['ROOT']:
+            segs.append(pc['roots'][cfg])
+        elif seg == ['ROOT2']:
+            segs.append(pc['roots'][other[0]] if other else '/nowhere')
+        else:
+            segs.append(''.join(dec(x) for x in seg))
+    return '/'.join(segs)
+
+
+def op_topath(c):
+    """C05: path of a Sid in every configuration, asked in every spelling, and back"""
+    import random
+    pc = _pathconf()
+    s = render_sid(dict(c, uri=[], query=[]))
+    sid = Sid(s)
+    o = dict(self=snap(sid), cfgs=[])
+    order = list(pc['cfgs'])
+    if c.get('reverse'):
+        order.reverse()
+    items = list(sid.fields.items())
+    random.Random(len(s)).shuffle(items)
+    for cfg in order:
+        p1, r1 = guard(lambda: sid.path(cfg))
+        d = dict(cfg=cfg, raised=r1, path=_lexed(p1, cfg) if not r1 else [], is_none=(p1 is None))
+        p2, r2 = guard(lambda: sid.path(config=cfg))
+        d['kw'] = dict(raised=r2, same=(not r2 and p2 == p1))
+        p3, r3 = guard(lambda: sid.path(cfg))
+        d['again'] = dict(raised=r3, same=(not r3 and p3 == p1))
+        alts = []
+        for name, mk in (('uri', lambda: Sid(sid.uri)), ('fields', lambda: Sid(fields=dict(items)) if items else Sid(s)),
+                         ('copy', lambda: sid.copy())):
+            p4, r4 = guard(lambda: mk().path(cfg))
+            alts.append(dict(via=name, raised=r4, same=(not r4 and p4 == p1)))
+        d['alts'] = alts
+        if cfg == pc['default']:
+            p5, r5 = guard(lambda: sid.path())
+            d['default'] = dict(raised=r5, same=(not r5 and p5 == p1))
+        if p1 is not None and not r1:
+            b, rb = guard(lambda: Sid(path=p1, config=cfg))
+            d['back'] = dict(raised=rb, eq=(not rb and b == sid), **(snap(b) if not rb else snap(None)))
+            bs, rbs = guard(lambda: Sid(path=str(p1), config=cfg))
+            d['back_str'] = dict(raised=rbs, eq=(not rbs and bs == sid))
+        else:
+            d['back'] = dict(raised='', eq=False, **snap(None))
+            d['back_str'] = dict(raised='', eq=False)
+        o['cfgs'].append(d)
+    return o
+
+
+def op_frompath(c):
+    """C06: an arbitrary path through Sid(path=, config=), and the path of the result"""
+    cfg = c['cfg']
+    p = _render_path(c['path'], cfg)
+    x, r = guard(lambda: Sid(path=p, config=cfg))
+    o = dict(raised=r, lexed=_lexed(p, cfg), raw=enc(p[-80:]), **(snap(x) if not r else snap(None)))
+    if not r and x:
+        b, rb = guard(lambda: x.path(cfg))
+        o['back'] = dict(raised=rb, same=(not rb and b is not None and str(b) == p), path=_lexed(b, cfg) if (not rb and b is not None) else [])
+    else:
+        o['back'] = dict(raised='', same=False, path=[])
+    return o
